@@ -4,3 +4,18 @@ known_findings.json names one of these functions in its "predicate" field."""
 
 def never(*a, **k):
     return False
+
+
+def probe_k7_round_overflow():
+    """K7 (C12): tol far below zero on a huge float: round() itself overflows and the call fails"""
+    import klepto
+    f = klepto.lru_cache(maxsize=3, tol=-308)(lambda x: x)
+    try:
+        f(1.7e308)
+    except OverflowError:
+        return True
+    return False
+
+
+def k7_overflow(p):
+    return 'OverflowError' in p.get('what', '') and 'too large' in p.get('what', '')
